@@ -27,6 +27,7 @@ _ATOMIC = ("one model step = one section of the Go code under the connection mut
 # really runs under the connection mutex (DESIGN 2.4c). Predicates over the ordered stream of
 # Lock / Unlock / return / selected statements of a function body, not AST equality.
 
+from . import srcgen
 import os
 import re
 
@@ -185,14 +186,15 @@ PROPS = {
                     "oracle on the implementation alone",
             "note": "model fidelity is sampled on every run (simulated kernel: vsys shim); real sockets are not part of this check",
             "technique": _TECH},
-        "lean": ["NbioVerif.Properties.C01", "NbioVerif.Properties.ConnTimer", "NbioVerif.Properties.ConnClose"], "drivers": ["conndrv"], "harness": ["hconn"],
+        "lean": ["NbioVerif.Properties.C01", "NbioVerif.Properties.ConnTimer", "NbioVerif.Properties.ConnClose", srcgen.BRIDGE_CONN], "drivers": ["conndrv"], "harness": ["hconn"],
         "runs": [_run_with_real(["n", "err", "ow", "cb", "rc", "deliv", "closed", "wire", "wl", "left", "pend", "acc", "onclose", "wtimer"])],
+        "facts": [srcgen.src_facts],
         "oracles": ["c01-"], "cs": _CS,
         "rule": "case = (stream type, epoll mode, bound, calls inside the open callback, op sequence with scripted kernel answers); distinct by "
                 "hash of (cell, per op: kind, error class, delivered event parts, queue length class, closed); non-trivial iff a backlog existed "
                 "at some observation or a call returned an error",
         "assumptions": [_KERNEL, _ATOMIC,
-                        "sendfile(2) transfers the range it reports and the source file is not truncated while queued; dup(2) succeeds",
+                        "sendfile(2) transfers the range it reports and the source file is not truncated while queued",
                         _IOV,
                         "non-interleaving of concurrent calls rests on 'one call = one critical section' (critical-section predicates "
                         "cs_write_calls_locked + the real-tier oracle c01-real-stream with concurrent writer goroutines), not on a "
@@ -208,8 +210,9 @@ PROPS = {
                     "readWriteLoop, with quiescent-unarmed / progress / hang oracles on the implementation alone",
             "note": "liveness in safety form (armed invariant + decreasing measure) under the assumption that an armed writable fd is eventually reported",
             "technique": _TECH},
-        "lean": ["NbioVerif.Properties.C04"], "drivers": ["conndrv"], "harness": ["hconn"],
+        "lean": ["NbioVerif.Properties.C04", srcgen.BRIDGE_CONN], "drivers": ["conndrv"], "harness": ["hconn"],
         "runs": [_run_with_real(["deliv", "closed", "wl", "wadded", "reg", "kout", "dis", "edge", "ctl", "onclose"])],
+        "facts": [srcgen.src_facts],
         "oracles": ["c04-"], "cs": _CS,
         "rule": "same stream as C01 (writes inside the open callback before registration, from the data callback while an event is handled, "
                 "and between events; EPOLLOUT-only events whose flush ends in EAGAIN); non-trivial iff a backlog existed at some observation",
